@@ -70,10 +70,16 @@ pub fn step(ctx: &Ctx, w: &World, ev: &mut Ev) {
         if let Some(v) = ctx.step.op.vamm_idx() {
             if ctx.step.op.is_engine_user_op() && v < ctx.pre.vamms.len() {
                 let vo = &ctx.pre.vamms[v];
-                if vo.ok && !vo.open && !matches!(ctx.step.op, Op::Deposit { .. }) {
+                // closed / registered as the history of accepted calls says (not as the contracts report)
+                let open_h = ctx.model.open_ref.get(v).cloned().unwrap_or(vo.open);
+                let reg_h = ctx.model.registry_ref.contains(&w.addrs.vamms[v]);
+                if open_h != vo.open {
+                    ev.count("open_flag_differs_from_history");
+                }
+                if vo.ok && !open_h && !matches!(ctx.step.op, Op::Deposit { .. }) {
                     ev.violation("closed_succeeded", &format!("{},main", kind), json!({"vamm": v}));
                 }
-                if vo.ok && !vo.registered && !matches!(ctx.step.op, Op::Deposit { .. } | Op::Close { .. }) {
+                if vo.ok && !reg_h && !matches!(ctx.step.op, Op::Deposit { .. } | Op::Close { .. }) {
                     ev.violation("unregistered_succeeded", &format!("{},main", kind), json!({"vamm": v}));
                 }
             }
